@@ -7,7 +7,21 @@ import base, common, genrun, tlc, tokens, render
 from base import main_loop
 
 SCALARS = ["Int", "Float", "String", "Boolean", "ID", "Date", "Time", "DateTime"]
-SDL = "type Query {\n" + "\n".join("  out%s: %s\n  in%s(a: %s): String" % (s, s, s, s) for s in SCALARS) + "\n}\n"
+SDL = ("\n".join("input Box%s { v: %s! }" % (s, s) for s in SCALARS) + "\n"
+       + "type Query {\n" + "\n".join("  out%s: %s\n  in%s(a: %s): String\n  inL%s(a: [%s!]): String\n  inO%s(a: Box%s): String" % (s, s, s, s, s, s, s, s) for s in SCALARS) + "\n}\n")
+# the positions an input value of scalar S can sit in besides a bare argument: (name, query template, variables builder, unwrap)
+CONTEXTS_IN = [
+    ("single-value-for-list-variable", "query ($a: [%(s)s!]) { inL%(s)s(a: $a) }", lambda v: {"a": v}, lambda a: a[0] if isinstance(a, list) and len(a) == 1 else ("NOTWRAPPED", a)),
+    ("item-of-list-variable", "query ($a: [%(s)s!]) { inL%(s)s(a: $a) }", lambda v: {"a": [v]}, lambda a: a[0] if isinstance(a, list) and len(a) == 1 else ("NOTWRAPPED", a)),
+    ("variable-inside-list-literal", "query ($x: %(s)s!) { inL%(s)s(a: [$x]) }", lambda v: {"x": v}, lambda a: a[0] if isinstance(a, list) and len(a) == 1 else ("NOTWRAPPED", a)),
+    ("variable-inside-object-literal", "query ($x: %(s)s!) { inO%(s)s(a: {v: $x}) }", lambda v: {"x": v}, lambda a: a["v"] if isinstance(a, dict) and list(a) == ["v"] else ("NOTWRAPPED", a)),
+    ("field-of-object-variable", "query ($a: Box%(s)s) { inO%(s)s(a: $a) }", lambda v: {"a": {"v": v}}, lambda a: a["v"] if isinstance(a, dict) and list(a) == ["v"] else ("NOTWRAPPED", a)),
+]
+CONTEXTS_LIT = [
+    ("single-literal-for-list", "{ inL%(s)s(a: %(lit)s) }", lambda a: a[0] if isinstance(a, list) and len(a) == 1 else ("NOTWRAPPED", a)),
+    ("item-of-list-literal", "{ inL%(s)s(a: [%(lit)s]) }", lambda a: a[0] if isinstance(a, list) and len(a) == 1 else ("NOTWRAPPED", a)),
+    ("field-of-object-literal", "{ inO%(s)s(a: {v: %(lit)s}) }", lambda a: a["v"] if isinstance(a, dict) and list(a) == ["v"] else ("NOTWRAPPED", a)),
+]
 FAIL = "FAIL"
 
 
@@ -26,6 +40,16 @@ class Env:
 
                 @t.Resolver("Query.in%s" % s, schema_name=self.sn)
                 async def r_in(parent, args, ctx, info):
+                    env.got.append(dict(args))
+                    return "ok"
+
+                @t.Resolver("Query.inL%s" % s, schema_name=self.sn)
+                async def r_inl(parent, args, ctx, info):
+                    env.got.append(dict(args))
+                    return "ok"
+
+                @t.Resolver("Query.inO%s" % s, schema_name=self.sn)
+                async def r_ino(parent, args, ctx, info):
                     env.got.append(dict(args))
                     return "ok"
             mk(s)
@@ -63,6 +87,40 @@ def observe(env, cell, k):
     if len(env.got) != 1 or "a" not in env.got[0]:
         return ("NOARG", env.got), resp
     return ("OK", env.got[0]["a"]), resp
+
+
+def observe_contexts(env, cell, k):
+    """the same input value at the other positions a scalar value can sit in: each must give the bare cell's outcome"""
+    s, d, t = cell["s"], cell["dir"], cell["t"]
+    out = []
+    if d == "in":
+        rep = tokens.REPS[t][k]
+        if rep is None:
+            return out
+        # (a list given for a list-typed variable is that list, not a single value)
+        runs = [(name, q % {"s": s}, mkvars(rep), unwrap) for name, q, mkvars, unwrap in CONTEXTS_IN
+                if not (name == "single-value-for-list-variable" and isinstance(rep, list))]
+    elif d == "lit":
+        lit = tokens.literal_text(cell["k"], t, k)
+        if lit == "null":
+            return out
+        runs = [(name, q % {"s": s, "lit": lit}, None, unwrap) for name, q, unwrap in CONTEXTS_LIT
+                if not (name == "single-literal-for-list" and cell["k"] == "ListValue")]
+    else:
+        return out
+    for name, q, variables, unwrap in runs:
+        resp = env.run(q, variables)
+        if not isinstance(resp, dict) or "__raised__" in resp:
+            obs = ("RAISED", resp)
+        elif resp.get("errors"):
+            obs = FAIL if not env.got else ("BOTH", env.got)
+        elif len(env.got) != 1 or "a" not in env.got[0]:
+            obs = ("NOARG", env.got)
+        else:
+            v = unwrap(env.got[0]["a"])
+            obs = ("OK", v) if not (isinstance(v, tuple) and v and v[0] == "NOTWRAPPED") else ("NOTWRAPPED", v[1])
+        out.append((name, obs, resp))
+    return out
 
 
 def direct(env, cell, k):
@@ -109,6 +167,9 @@ def job(j):
             st["n"] += 1
             obs, resp = observe(env, cell, k)
             judge(cell, k, obs, "engine", resp)
+            for name, cobs, cresp in observe_contexts(env, cell, k):
+                st["n"] += 1
+                judge(cell, k, cobs, name, cresp)
             dobs = direct(env, cell, k)
             if dobs is not None:
                 st["n"] += 1
